@@ -1,6 +1,7 @@
 CONSTANTS
  Alphabet = {"PCT", "L", "D", "US", "DOT", "LP", "RP", "QT", "SP", "O", "NL"}
  MaxLen = 6
+ Wrap = "none"
  MinPct = 2
 INIT Init
 NEXT Next
